@@ -88,7 +88,9 @@ def gen_case(rng, idx, ctype, fit, bias, cell, combo=None):
     else:
         coeff = exp = None
         r = rng.random()
-        if corpus.COMPONENTS and r < 0.3:
+        # a coefficient on a unit-vector or quaternion component gives a value off its manifold
+        # (not a meaningful variable): coefficients only for scalar and plain vector components
+        if r < 0.3 and ctype not in ("distanceDir", "orientation"):
             coeff = round(rng.uniform(-3, 3), 3) or 2.0
         cv = corpus.make_colvar(rng, sysm, pool, "cv1", ctype, opts, extra, coeff=coeff,
                                 exp=(rng.choice([2, 3]) if (r < 0.15 and ctype not in ("distanceVec", "distanceDir", "orientation", "distancePairs", "cartesian")) else None))
@@ -163,7 +165,7 @@ def check_sweep(c, case, ev, files):
         gh2 = (ep2 - em2) / H
         g = (4.0 * gh2 - gh) / 3.0
         spread = abs(gh2 - gh)
-        rnd = 40.0 * 2.2e-16 * max(abs(e0), abs(ep), abs(em), 1e-300) / H
+        rnd = 400.0 * 2.2e-16 * max(abs(e0), abs(ep), abs(em), 1.0) / H
         if spread > 1e-4 * fscale + 50 * rnd:
             n_inc += 1
             c.bump("coords_nonsmooth")
@@ -199,7 +201,7 @@ def check_sweep(c, case, ev, files):
 def plan(c, tier):
     rng = c.rng
     cases = []
-    reps = 1 if tier == "quick" else 12
+    reps = 4 if tier == "quick" else 40
     idx = 0
     for rep in range(reps):
         for ctype in corpus.COMPONENTS:
@@ -293,7 +295,7 @@ def run(tier, replay):
             c.bump("cases_zero_force")
     uncovered = sorted(set(ALL_TYPES) - set(c.extra.get("component_types_covered", [])))
     c.extra["component_types_uncovered"] = uncovered
-    floor = len(c.distinct) >= (40 if tier == "quick" else 80) and conclusive_coords >= 2000
+    floor = len(c.distinct) >= (80 if tier == "quick" else 100) and conclusive_coords >= 5000
     return c.finish(floor, "only %d distinct triples / %d conclusive coordinates" % (len(c.distinct), conclusive_coords))
 
 
